@@ -3,8 +3,9 @@ coq/theories/Solver/Loop.v (the hand-written model of _solve_by_evolution the C1
 
 Translated: the two callbacks handed to the operators (nested functions of _solve_by_evolution closing over its
 locals: nonlocal-as-state) and the three limit checks in front of every operator application (the statements of the
-`for operator in ...` body before `if terminate: break`: fragment-as-function).  NOT translated: the `while`/`for`
-skeleton, the operator calls, the final raise and the assembly of the result (differential tie only).
+`for operator in ...` body before `if terminate: break`: fragment-as-function), the six initialisations at the top and
+the `raise` guard behind the main loop (fragments too).  NOT translated: the `while`/`for` skeleton, the operator
+calls, criterion.reset_state() and the assembly of the result (differential tie only).
 
 Data representation (trusted, the same as the hand-written model's):
 * everything the model keeps abstract stays abstract: the generated definitions are polymorphic in Ind (individuals),
@@ -20,7 +21,7 @@ Data representation (trusted, the same as the hand-written model's):
   caller and appends the current result first (idiom criterion-as-history-function);
 * operator.get_n_expected_circuit_evaluations(population, operator_context) is an oracle `estimate : Op -> Pop -> option Z`.
 """
-from pytypes import BOOL, UNIT, Q, Z, List, Nom, Opt
+from pytypes import BOOL, UNIT, Q, Z, List, Nom, Opt, Tup
 
 TYPE = Nom("Type", "Type")
 Ind = Nom("Ind", "Ind")
@@ -113,5 +114,19 @@ SPEC = dict(
                      ("terminate", "terminate", BOOL), ("operator", "operator", Op), ("population", "population", Pop),
                      ("operator_context", "operator_context", Ctx)],
              self_attrs=SELF, returns=BOOL),
+        # the six initialisations at the top of _solve_by_evolution (the statement after them must exist: count=6)
+        dict(py=SOLVE, gen="initial_state",
+             fragment=dict(path=[], count=6, outputs=[f[0] for f in NONLOCAL["fields"]]),
+             extra_params=[("Ind", TYPE), ("R", TYPE)], params=[],
+             locals={f[0]: f[2] for f in NONLOCAL["fields"]},
+             returns=Tup(*[f[2] for f in NONLOCAL["fields"]])),
+        # the guard behind the main loop: `if <nothing evaluated>: raise Exception(...)`
+        dict(py=SOLVE, gen="final_guard",
+             fragment=dict(path=[], after="While", count=1, outputs=[]),
+             extra_params=[("Ind", TYPE), ("R", TYPE)],
+             params=[("current_best_individual", "current_best_individual", Opt(Ind)),
+                     ("current_best_expectation_value", "current_best_expectation_value", Opt(Q)),
+                     ("population_evaluations", "population_evaluations", List(R))],
+             returns=UNIT),
     ],
 )
